@@ -105,4 +105,36 @@ def cleanOne (components : List (List Nat)) : List (List Nat) :=
   let m := (components.map (·.length)).foldl max 0
   if m == 0 then [] else components.filter fun c => c.length == m
 
+/-! ### the whole post-processing pipeline of get_clusters -/
+
+inductive Stage where
+  | merge | localize | clean
+deriving DecidableEq, Repr
+
+def Stage.ofString? : String → Option Stage
+  | "merge" => some .merge
+  | "localize" => some .localize
+  | "clean" => some .clean
+  | _ => none
+
+/-- what the pipeline takes from outside: the structure, the thresholds, the "near" relation of the merge radius, the
+partition of an index set into bonded components (DBSCAN contract D1) and which of several largest components DBSCAN's
+label order puts first -/
+structure Env where
+  numbers : List Nat
+  thr : Rat
+  near : Nat → Nat → Bool
+  comps : List Nat → List (List Nat)
+  pick : List (List Nat) → Option (List Nat)
+
+def setIdx (cs : List Clu) (ixs : List (List Nat)) : List Clu := List.zipWith (fun c ix => { c with idx := ix }) cs ixs
+
+def applyStage (e : Env) : Stage → List Clu → List Clu
+  | .merge, cs => mergeClusters e.numbers e.thr cs
+  | .localize, cs => setIdx cs (localize e.near e.numbers.length (cs.map (·.idx)))
+  | .clean, cs => cs.filterMap fun c => (e.pick (e.comps c.idx)).map fun ix => { c with idx := ix }
+
+/-- the stages in the order in which `get_clusters` applies them (the order is translated from the source) -/
+def pipeline (e : Env) (order : List Stage) (cs : List Clu) : List Clu := order.foldl (fun cs st => applyStage e st cs) cs
+
 end Matid.SBC
